@@ -115,7 +115,13 @@ func (c *Chain) newLFBTicket(b *block.Block) (ticket *LFBTicket) {
 }
 
 func (c *Chain) verifyLFBTicket(lfbt *LFBTicket) bool {
-	var sharder = node.GetNode(lfbt.SharderID)
+	// only a sharder of the current magic block may sign an LFB ticket; the global node registry also
+	// holds the miners and nodes of earlier magic blocks
+	var mb = c.GetCurrentMagicBlock()
+	if mb == nil || mb.Sharders == nil {
+		return false
+	}
+	var sharder = mb.Sharders.GetNode(lfbt.SharderID)
 	if sharder == nil {
 		return false // unknown or missing node
 	}
